@@ -453,8 +453,9 @@ fn algebra_sweep() {
 
 fn stats_sweep() {
     let mut f = Findings::new();
-    let (n, m, p) = (30usize, 2usize, 2usize);
-    for wk in 0..5 {
+    // shapes: two basis functions sharing nothing; ONE basis function (M = 1: code paths specialised on a single column)
+    for &(n, m, p, wks) in [(30usize, 2usize, 2usize, 5usize), (30, 1, 1, 2)].iter() {
+    for wk in 0..wks {
         // 0: no weights, 1: varied, 2: two exact zeros, 3: data and weights at a tiny scale, 4: one common weight 0.5
         let scale = if wk == 3 { 1e-18 } else { 1.0 };
         let y = ydata(n, 1).column(0).into_owned() * scale;
@@ -513,8 +514,9 @@ fn stats_sweep() {
         let sig: Vec<f64> = (0..n).map(|i| (j.row(i) * &cov * j.row(i).transpose())[(0, 0)].sqrt()).collect();
         let t0 = band[0] / sig[0];
         if band.len() != n || (0..n).any(|i| !band[i].is_finite() || (band[i] / sig[i] - t0).abs() > 1e-5 * t0.abs()) || !(t0 > 1.6 && t0 < 1.8) {
-            f.report(&format!("C14{}", wt), "confidence_band_radius(0.9) is not t(0.95; 26) * sqrt(j_i^T Cov j_i) for every sample (t = 1.7056)", cfg.clone());
+            f.report(&format!("C14{}", wt), "confidence_band_radius(0.9) is not t(0.95; N-M-P) * sqrt(j_i^T Cov j_i) for every sample (t = 1.7056 for 26, 1.7011 for 28 degrees of freedom)", cfg.clone());
         }
+    }
     }
     // C09: a derivative that fails AFTER the minimisation (inside the statistics) makes fit_with_statistics return Err, no panic
     {
@@ -536,7 +538,7 @@ fn stats_sweep() {
             }
         }
     }
-    f.finish("statistics agree with their defining formulas (5 weight / scale cases); late derivative failures give Err");
+    f.finish("statistics agree with their defining formulas (5 weight / scale cases; a one-basis-function model); late derivative failures give Err");
 }
 
 fn xs(n: usize) -> DVector<f64> { DVector::from_vec((1..=n).map(|i| i as f64).collect::<Vec<_>>()) }
